@@ -22,7 +22,7 @@ from typing import Dict, List, Optional, Set
 import sympy as sp
 
 from ..consteval import Folder, Raised, Undecidable
-from ..index import AnalysisError, FunctionInfo, Index, full, norm, own_nodes
+from ..index import AnalysisError, FunctionInfo, Index, full, norm, own_nodes, resolve_local
 from ..report import Report
 from ..rules import siblings as sib
 from .. import symx
@@ -51,8 +51,14 @@ def check_per_shot_products(idx: Index, rep: Report):
                     if isinstance(x, ast.AugAssign) and isinstance(x.op, ast.Mult) and isinstance(x.target, ast.Name):
                         prods.setdefault(x.target.id, x)
                 for v, aug in prods.items():
+                    carriers = {v}                  # locals that hand the product on inside the loop
+                    for _round in range(3):
+                        for x in ast.walk(body):
+                            if isinstance(x, ast.Assign) and len(x.targets) == 1 and isinstance(x.targets[0], ast.Name) and x.targets[0].id != v and \
+                                    any(isinstance(y, ast.Name) and y.id in carriers for y in ast.walk(x.value)):
+                                carriers.add(x.targets[0].id)
                     recorded = [x for x in ast.walk(body) if isinstance(x, ast.Assign) and any(isinstance(t, (ast.Subscript, ast.Attribute)) for t in x.targets)
-                                and any(isinstance(y, ast.Name) and y.id == v for y in ast.walk(x.value))]
+                                and any(isinstance(y, ast.Name) and y.id in carriers for y in ast.walk(x.value))]
                     if not recorded:
                         continue
                     # the innermost loop that contains both the product and the record is the one that has to reset it
@@ -242,7 +248,7 @@ def check_probability_flow(idx: Index, rep: Report):
     rep.floor("probability stores", len(stores), 2)
     for st in stores:
         key = norm(st.targets[0].slice)
-        ok = norm(st.value) == "success_probability" and key in ("measurements", "desired_meas_result")
+        ok = norm(resolve_local(f.node, st.value)) == "success_probability" and key in ("measurements", "desired_meas_result")
         rep.decide(ok, rule, f, st, text=f"_probabilities[{key}] = {norm(st.value)}", what="the branch probability is recorded under its outcome string",
                    reason=f"stored {norm(st.value)} under {key}")
     inits = [n for n in own_nodes(f.node) if isinstance(n, ast.Assign) and norm(n.targets[0]) == "success_probability"]
